@@ -201,6 +201,11 @@ def keyOfTokens (x28 m29 : Option Nat) : Nat := ((x28.orElse fun _ => m29).getD 
 
 def rowSubs (l : Option Line) : Subs := { items := [{ startAt := 0, endAt := 0, lines := l.toList }] }
 
+/-- the independent decoder on its class; page options from 25600 on are outside it (the library keeps
+    the magazine in a uint8, the specification in an unbounded number: `C06doc.inClass`) -/
+def specDecode (page : Nat) (pes : List (Int × List Nat)) :=
+  if page < 25600 then Spec.Teletext.decode page pes else none
+
 def handleTeletext (op : String) (argsG impl : List String) : Verdict :=
   let (args, g) := splitG argsG
   match op, args with
@@ -209,7 +214,7 @@ def handleTeletext (op : String) (argsG impl : List String) : Verdict :=
     | some page, some n =>
       match decPesArgs n rest with
       | some pes =>
-        compareS ("ok " ++ encSubs (runPES page pes)) (joinT impl) fun _ => specOk impl (Spec.Teletext.decode page pes) g
+        compareS ("ok " ++ encSubs (runPES page pes)) (joinT impl) fun _ => specOk impl (specDecode page pes) g
       | none => .bad "teletext.pes payloads"
     | _, _ => .bad "teletext.pes"
   | "teletext.read", [page, pid, _ts] =>
@@ -224,7 +229,7 @@ def handleTeletext (op : String) (argsG impl : List String) : Verdict :=
       | some (.inr (pid, pass, ending)) =>
         match readLoop page pid pass (ending == "E") with
         | .err => compareS "err" (joinT ans) fun _ => g.isEmpty
-        | .ok s => compareS ("ok " ++ encSubs s) (joinT ans) fun _ => specOk ans (Spec.Teletext.decode page (pesOf pid pass)) g
+        | .ok s => compareS ("ok " ++ encSubs s) (joinT ans) fun _ => specOk ans (specDecode page (pesOf pid pass)) g
     | _, _ => .bad "teletext.read"
   | "teletext.row", [x28, m29, code, row] =>
     match optNat x28, optNat m29, code.toNat?, decNats row with
